@@ -422,6 +422,10 @@ impl<'p> World<'p> {
     pub fn run(&mut self) {
         crate::envseam::set_answer(self.plan.env.as_deref());
         crate::envseam::take_queries();
+        crate::oddalloc::set_odd(self.plan.odd_alloc);
+        if self.plan.odd_alloc {
+            self.stats.bump("fault:alloc:byte-buffers-at-odd-addresses");
+        }
         if self.plan.env.is_some() {
             self.stats.bump("fault:env:unset-variables-answered");
         }
@@ -435,6 +439,7 @@ impl<'p> World<'p> {
             }
         }
         crate::envseam::set_answer(None);
+        crate::oddalloc::set_odd(false);
     }
 
     pub fn apply(&mut self, idx: usize, step: &Step) {
